@@ -83,7 +83,7 @@ pub fn meta() -> CheckMeta {
         level: "exploration",
         rule: "each case = one client/server Session pair over two seeded MemPipes (capacity, write/read fragmentation, spurious Pending), 1-8 streams, per stream and direction a chunk-size sequence from a boundary-heavy pool (0,1,7,8,8192,16384,65535,65536,70000,131072,200000,...), one of 3 submission paths and 3 read paths, optional random padding scheme and random sched-point yields; in about a quarter of the streams one side ends its direction (FIN) after its last chunk and the other side writes its data only after that FIN has been processed (a FIN ends one direction only: the open direction must still deliver every byte); every byte read is compared online with the position-addressable pattern written at that offset; completeness and 'nothing more' are checked at quiescence under virtual time. distinct_nontrivial counts distinct (chunk sequences, APIs, pipe configs) whose transport fragments frames or that contain a chunk above one frame. End to end: real Client -> real Server with its default TCP handler -> loopback target; uploads of 1 byte to 6 MB (thorough 20 MB) in chunks of 1000-200000 bytes through write_data_frame, ended by a FIN on the stream / by closing the session right after the last write returned (with or without stopping the client's housekeeping; the sockets are dropped only after the target has seen the end, so that the connection ends in order and is not reset), towards a target that starts reading at once or after 400 ms: the target must receive exactly the uploaded bytes (length and FNV hash). In 30% of the cases with sequential opens the server side starts writing on a stream the moment the stream appears, while the client may still be inside open_stream for it or for a later one (a peer that greets on connect). In 15% of the cases the transport of one direction stops delivering at a random byte offset, stays open, and resumes 3-130 virtual seconds later: nothing may be lost, torn or misdelivered because of the wait.".into(),
         assumptions: vec!["tokio's paused clock only advances when every task is idle, so 'still waiting after 3600 virtual s' means blocked forever".into(), "streams are never closed in this workload (C08 covers closing)".into()],
-        floors: vec![("bytes_compared", 1_000_000), ("witness_cases", 40), ("cases_with_chunk_above_65535", 5), ("cases_with_empty_chunk", 20), ("streams_with_one_direction_ended_first", 100), ("e2e_uploads_checked", 20)],
+        floors: vec![("bytes_compared", 1_000_000), ("witness_cases", 40), ("cases_with_chunk_above_65535", 5), ("cases_with_empty_chunk", 20), ("streams_with_one_direction_ended_first", 100), ("e2e_uploads_checked", 20), ("e2e_front_end_downloads_checked", 3)],
         exhaustive: false,
     }
 }
